@@ -21,7 +21,7 @@ EXPLANATION = (
     "bracket managers; S8 the failure sentinel exists in the numerical library. NOT decided: the rung sizes of the "
     "geometric system; 'exactly the best ones' under ties.")
 
-FLOOR = {"S1": 2, "S2": 3, "S3": 2, "S4": 3, "S5": 1, "S6": 5, "S7": 2, "S8": 3}
+FLOOR = {"S1": 2, "S2": 3, "S3": 2, "S4": 3, "S5": 1, "S6": 5, "S7": 2, "S8": 3, "S9": 2}
 
 
 def s1(ctx, rep):
@@ -242,6 +242,54 @@ def s7(ctx, rep):
                 "new brackets do not cycle through the configured rung systems")
 
 
+def s9(ctx, rep):
+    """the top list of a completed rung is cut to the size of the rung above it: get_top_list(rung = rungs[k - 1],
+    new_len = size of rungs[k]) at every call site"""
+    P = ctx.P
+    n = 0
+    for f in sorted(P.functions.values(), key=lambda f: f.qualname):
+        for x in walk_shallow(f.node):
+            if not (isinstance(x, ast.Call) and fn_name(x) == "get_top_list"):
+                continue
+            n += 1
+            R, N = kwarg(x, "rung", 0), kwarg(x, "new_len", 1)
+
+            def rung_index(e, want_first):
+                """index expression k such that e is the entry list / size of self._rungs[k]"""
+                if isinstance(e, ast.Name):
+                    ds = local_defs(f, e.id)
+                    if len(ds) == 1 and isinstance(ds[0], tuple) and ds[0][0] == "unpack" and ds[0][2] == 0 and isinstance(ds[0][1], ast.Subscript) \
+                            and U(ds[0][1].value) == "self._rungs":
+                        return ds[0][1].slice
+                    if len(ds) == 1 and isinstance(ds[0], ast.AST):
+                        return rung_index(ds[0], want_first)
+                if isinstance(e, ast.Subscript) and U(e.slice) == "0" and isinstance(e.value, ast.Subscript) and U(e.value.value) == "self._rungs":
+                    return e.value.slice
+                if isinstance(e, ast.Call) and U(e.func) == "self.size_of_current_rung" and not want_first:
+                    return ast.parse("self.current_rung", mode="eval").body
+                if isinstance(e, ast.Call) and fn_name(e) == "len" and e.args and not want_first:
+                    return rung_index(e.args[0], True)
+                return None
+            kr, kn = rung_index(R, True), rung_index(N, False)
+
+            def norm(ix):
+                # pos -> its definition (pos = self.current_rung)
+                if isinstance(ix, ast.Name):
+                    ds = [d for d in local_defs(f, ix.id) if not isinstance(d, tuple)]
+                    if len(ds) == 1:
+                        return U(ds[0])
+                return U(ix) if ix is not None else None
+            ok = kr is not None and kn is not None and isinstance(kr, ast.BinOp) and isinstance(kr.op, ast.Sub) and U(kr.right) == "1" \
+                and norm(kr.left) == norm(kn)
+            rep.put(ok, "S9", "agreement", f"{f.short}: get_top_list ranks rung k-1 and keeps as many as rung k holds", f, x,
+                    f"rung = rungs[{U(kr) if kr is not None else '?'}], new_len = size of rungs[{U(kn) if kn is not None else '?'}]",
+                    f"`{U(x)[:90]}`: the number of entries kept is not the size of the rung above the ranked one (e.g. the ranked rung's own "
+                    "length): with a failed entry the valid ones are fewer than that, the 'not enough valid entries' fallback returns them "
+                    "unsorted, and trials are promoted in slot order instead of best first")
+    if n < 2:
+        raise AnchorError(f"C05-S9: {n} get_top_list call sites (2 confirmed)")
+
+
 def run(ctx, rep, tier="quick"):
     s1(ctx, rep)
     s2(ctx, rep)
@@ -250,3 +298,4 @@ def run(ctx, rep, tier="quick"):
     s6(ctx, rep)
     s7(ctx, rep)
     c13.s6(ctx, rep, clause="S8")
+    s9(ctx, rep)
